@@ -173,10 +173,22 @@ def native_safe_vs_unsafe(u):
     err = max(abs(a - b) for a, b in zip(*outs)); scale = max(abs(a) for a in outs[0]) + 1e-300
     return err > 1e-9 * scale, "native %s %s: safe vs unsafe+synchronize differ by %.3g (scale %.3g)" % (u['integ'], u.get('set'), err, scale)
 
+def run_eos_words(u):
+    """EOS: its deferred synchronisation is checked at the level of operator words (unit shared with C01): two unsynchronised steps +
+    synchronize apply the same word of shell drifts and interactions as two synchronised steps, for every outer scheme"""
+    import c01
+    rep = c01.run_eos(dict(what='eos', phi0=u['phi0'], phi1=u.get('phi1', 'REB_EOS_LF'), n=1, unsync=True))
+    for v in rep.violations: v['key'] = v['key'].replace('C01:', 'C09:'); v['replay'] = dict(kind='eos_words', unit=dict(what='eos', phi0=u['phi0'], phi1=u.get('phi1', 'REB_EOS_LF'), n=1, unsync=True), index=v['replay'].get('index'))
+    return rep
+
 def worker(u):
+    if u['what'] == 'eos_words': return run_eos_words(u)
     return {'transparent': run_transparent, 'idempotent': run_idempotent, 'safe': run_safe_vs_unsafe}[u['what']](u)
 
 def replay(data):
+    if data.get('kind') == 'eos_words':
+        import c01
+        return c01.replay(dict(unit=data['unit'], index=data['index']))
     return native_transparent(data['unit']) if data['kind'] == 'transparent' else native_safe_vs_unsafe(data['unit'])
 
 def main():
@@ -190,6 +202,7 @@ def main():
         us.append(dict(what='transparent', integ='WHFAST', N=2, steps=2, set=dict(st, **{'ri_whfast.safe_mode': 0, 'ri_whfast.keep_unsynchronized': 1})))
         us.append(dict(what='idempotent', integ='WHFAST', N=2, steps=2, set=dict(st, **{'ri_whfast.safe_mode': 0})))
         us.append(dict(what='safe', integ='WHFAST', N=2, steps=2 if tier == 'quick' else 3, set=st, safe_field='ri_whfast.safe_mode', ext=(tier == 'thorough'), t_ms=(5000 if tier == 'quick' else 20000)))
+    for p0 in ('LF', 'LF4', 'LF6', 'LF8', 'LF4_2', 'LF8_6_4', 'PLF7_6_4', 'PMLF4', 'PMLF6'): us.append(dict(what='eos_words', phi0='REB_EOS_' + p0))
     us.append(dict(what='transparent', integ='SABA', N=2, steps=2, set={'dt': 0.01, 'ri_saba.safe_mode': 0, 'ri_saba.keep_unsynchronized': 1}))
     us.append(dict(what='idempotent', integ='SABA', N=2, steps=2, set={'dt': 0.01, 'ri_saba.safe_mode': 0}))
     for ty in (('REB_SABA_1', 'REB_SABA_2') if tier == 'quick' else ('REB_SABA_1', 'REB_SABA_2', 'REB_SABA_4', 'REB_SABA_10_4', 'REB_SABA_10_6_4', 'REB_SABA_H_8_4_4')):
@@ -202,7 +215,7 @@ def main():
         bounds=dict(units=len(us), particles='2' if tier == 'quick' else '2..3', steps='2..3', integrators=['WHFAST (4 coordinate systems)', 'SABA']),
         assumptions=['(1),(2): Kepler solver is an uninterpreted pure function of (state, mass, dt); particle data arbitrary bit patterns; flags concrete',
                      '(3): the Kepler flow is replaced by a linear drift, an exactly composable one-parameter group; the obligation is that the control code merges half-drifts correctly, over the reals', 'no coincident particles'],
-        outside=['EOS (its merged drift is only approximately composable)', 'MERCURIUS', 'WHFast512', 'histories longer than 3 steps', 'the accuracy of the real Kepler solver (C03)'],
+        outside=['EOS on particle data (its merged drift is only approximately composable): decided at the level of operator words only', 'MERCURIUS', 'WHFast512', 'histories longer than 3 steps', 'the accuracy of the real Kepler solver (C03)'],
         domain_note='UF for bit-transparency/idempotence; REAL for safe-vs-unsafe')
     sys.exit(code)
 
